@@ -120,6 +120,57 @@ type H010 struct {
 	MO map[string]*int64 `parquet:"mo,optional"`
 }
 
+// optional NON-pointer structs (round 4): the `optional` tag is documented for "any type"; the zero
+// value of the struct is the null of the field (like the zero value of every other non-pointer
+// optional field), any other value is present. At the top level, nested in each other, below a
+// pointer and below a slice and a list; with wrappers inside (optional leaf, pointer, slices) so
+// that a null run of the bitmap scan hands zero values to every kind of inner writer. No floats
+// inside (-0.0 is not the zero value but compares equal to it: kept out of the struct-zero test).
+type H014Leafs struct {
+	X int32  `parquet:"x"`
+	Y string `parquet:"y,optional"`
+}
+
+type H014Deep struct {
+	P  *int64    `parquet:"p"`
+	R  []int32   `parquet:"r"`
+	L  []string  `parquet:"l,list"`
+	In H014Leafs `parquet:"in,optional"`
+	B  []byte    `parquet:"b,optional"`
+}
+
+type H014In struct {
+	S H014Leafs `parquet:"s,optional"`
+	N int32     `parquet:"n"`
+}
+
+type H014 struct {
+	A  H014Leafs `parquet:"a,optional"`
+	B  H014Deep  `parquet:"b,optional"`
+	In *H014In   `parquet:"in"`
+	L  []H014In  `parquet:"l"`
+	LL []H014In  `parquet:"ll,list"`
+	E  int32     `parquet:"e"`
+}
+
+// a map whose VALUES carry the optional tag on a non-pointer Go type (parquet-value:",optional"):
+// the zero value is the null of the entry, any other value is present. C03 only.
+type H015 struct {
+	ID int64            `parquet:"id"`
+	M  map[string]int32 `parquet:"m" parquet-value:",optional"`
+}
+
+// MapValueOptCatalog: map types with optional non-pointer values (C03 only; not in MapCatalog).
+var MapValueOptCatalog []*Entry
+
+func init() {
+	if e := entryOf[H015]("H015"); e != nil {
+		e.HasMap = true
+		e.Shape = "optional-nonpointer-map-value"
+		MapValueOptCatalog = append(MapValueOptCatalog, e)
+	}
+}
+
 // shapes SchemaOf accepts that no documented tag describes: a pointer to a pointer, a slice of
 // pointers without the list tag. What the ingestion paths do with them is recorded as an
 // observation (they are not "Go struct types expressible with the documented tags").
@@ -154,6 +205,10 @@ func init() {
 			ExtCatalog = append(ExtCatalog, e)
 			register(e) // members of the shared catalogue too
 		}
+	}
+	// round 4: C03 only (not registered in the shared catalogue)
+	if e := entryOf[H014]("H014"); e != nil {
+		ExtCatalog = append(ExtCatalog, e)
 	}
 	if e := entryOf[H010]("H010"); e != nil {
 		e.HasMap = true
